@@ -418,7 +418,7 @@ def supply_helpers(unit, res):
     names = []
     for d in res.get("diags", []):
         msg = d.get("message", "")
-        for pat in (r"cannot find function `(\w+)` in this scope", r"no method named `(\w+)` found", r"no function or associated item named `(\w+)` found"):
+        for pat in (r"cannot find function `(\w+)` in this scope", r"no method named `(\w+)` found", r"no function or associated item named `(\w+)` found", r"no associated function or constant named `(\w+)` found", r"no associated item named `(\w+)` found"):
             m = re.match(pat, msg)
             if m and m.group(1) not in names:
                 names.append(m.group(1))
@@ -459,10 +459,14 @@ def supply_helpers(unit, res):
             params.append((nm.strip(), ty.strip()))
         w = unit.weaver
         nrec = len(w.records)
-        try:
-            woven, _ = w.emit_fn({"path": it["path"], "id": "kvx_helper_" + n, "file_hint": os.path.relpath(it["file"], REPO), "impl_self": it.get("impl_self"), "trait": it.get("impl_trait")})
-        except Exception:
-            del w.records[nrec:]
+        woven = None
+        for hspec in ({"impl_self": it.get("impl_self"), "trait": it.get("impl_trait")}, {"trait": it.get("impl_trait")}, {}):
+            try:
+                woven, _ = w.emit_fn(dict({"path": it["path"], "id": "kvx_helper_" + n, "file_hint": os.path.relpath(it["file"], REPO)}, **hspec))
+                break
+            except Exception:
+                del w.records[nrec:]
+        if woven is None:
             return None
         k = woven.find("{", woven.find(")", woven.find("fn " + n)))
         body = woven[k:woven.rfind("}") + 1]
